@@ -261,6 +261,30 @@ theorem lexical_scope_example :
       (.fn (.ident "y") (.bin .add (.ident "x") (.ident "y")))
       (.let_ (.ident "x") (.num 10) (.call (.ident "f") (.num 1))))) = .ok (.data (.num 2)) := rfl
 
+/-- a name bound to a bare identifier is bound to that identifier's VALUE at the binding (not to the
+identifier): `let x = u; let y = x; let x = w; y`, `let x = u; x -> \y let x = w; y` and
+`let x = u; (\y let x = w; y)(x)` all are `u`, for every budget that lets the call happen -/
+theorem alias_binds_value (fo po : Bool) (x y : String) (u w : Ast) (vu vw : V)
+    (hu : leafLit u = some vu) (hw : leafLit w = some vw) (hxy : y ≠ x) (hx : x ≠ "_") (hy : y ≠ "_")
+    (n : Nat) (env : Env) :
+    eval n (compileG fo po (.let_ (.ident x) u (.let_ (.ident y) (.ident x) (.let_ (.ident x) w (.ident y))))) env
+      = .ok (.data vu) ∧
+    eval n (compileG fo po (.let_ (.ident x) u (.opFn .arrow (.ident x) (.ident y) (.let_ (.ident x) w (.ident y))))) env
+      = .ok (.data vu) ∧
+    eval (n + 1) (compileG fo po (.let_ (.ident x) u (.call (.fn (.ident y) (.let_ (.ident x) w (.ident y))) (.ident x)))) env
+      = .ok (.data vu) := by
+  simp [eval, compileG, compile_leaf hu, compile_leaf hw, evalE, Impl.bind, lookup, callAt, hxy, hx, hy]
+
+/-- an inner default binder wins over an outer one: `{3, 1, 2} -> ((.) orderby -.)` is `[3, 2, 1]` and
+`{{3, 1, 2}} => ((.) orderby -.)` is `{[3, 2, 1]}` -/
+theorem nested_default_binder_example :
+    Impl.run 0 (.opDot .arrow (.coll .set (.cons "" .nil (.num 3) (.cons "" .nil (.num 1) (.cons "" .nil (.num 2) .nil))))
+      (.opDot .orderby (.ident ".") (.neg (.ident ".")))) = .ok (.data (V.mkArr [.num 3, .num 2, .num 1])) ∧
+    Impl.run 0 (.opDot .darrow (.coll .set (.cons "" .nil
+        (.coll .set (.cons "" .nil (.num 3) (.cons "" .nil (.num 1) (.cons "" .nil (.num 2) .nil)))) .nil))
+      (.opDot .orderby (.ident ".") (.neg (.ident ".")))) = .ok (.data (V.mkSet [V.mkArr [.num 3, .num 2, .num 1]])) :=
+  ⟨rfl, rfl⟩
+
 /-! ### layer 2: the precedence tower is the documented one -/
 
 /-- the `>`-separated alternatives of rule `expr` regenerated from syntax/arrai.wbnf are the documented
